@@ -129,7 +129,12 @@ pub(crate) fn read_escaped_string(
 
                         value.extend(
                             char::from_u32(number)
-                                .expect("unable to convert u32 to char")
+                                .ok_or_else(|| {
+                                    StringError::malformed_escape_sequence(
+                                        position,
+                                        "invalid unicode value",
+                                    )
+                                })?
                                 .encode_utf8(&mut buf)
                                 .as_bytes(),
                         );
